@@ -66,6 +66,8 @@ class PropertyRun:
         self.unexpected_unreached = []
         self.force_level = None
         self._searched = set()
+        self._fn_search = {}
+        self._fn_found = {}
         self._witnessed = {}
         self.explanation = ''
 
@@ -159,21 +161,42 @@ class PropertyRun:
                     # cannot build): search the function's argument model natively for an input that breaks the contract
                     self._searched.add(rep['function'])
                     found = self.input_search(contract)
+                    self._fn_search[rep['function']] = self._search_stats
+                    self._fn_found[rep['function']] = found
                     if found is not None:
                         fail['inputs'] = found['inputs']
                         fail['replay'] = {'reproduced': True, 'observed': found['observed'], 'failed_clauses': found['failed_clauses'],
                                           'input_source': 'native sampled search of the argument model (the solver model was not a replayable call)'}
-                self.failures.append(fail)
+                rp = fail.get('replay') or {}
+                st = self._fn_search.get(rep['function'])
+                model_ok = (not ob.get('inputs')) or (bool(rp.get('post')) and all(v is True for v in rp['post'].values())
+                                                      and all(v is not False for v in (rp.get('pre') or {}).values()))
+                if not rp.get('reproduced') and model_ok and st and st['failing'] == 0 and st['evaluated'] >= 50 \
+                        and st['undetermined'] == 0:
+                    # positive native evidence against the counter-model: the function satisfies every clause of its contract
+                    # on the model's own input (where it is a call at all) and on every input of the native search, with
+                    # no clause left undetermined. The failed obligation is then an artefact of the abstraction (typically
+                    # a loop invariant that is no longer inductive for a differently written but correct loop): undecided,
+                    # not a violation.
+                    self.undecided.append({'obligation': ob['name'], 'function': rep['function'],
+                                           'reason': f"obligation failed but no native execution breaks the contract ({st['evaluated']} "
+                                                     'searched inputs and the counter-model input all satisfy every clause): '
+                                                     'counter-model attributed to the abstraction'})
+                else:
+                    self.failures.append(fail)
             else:
                 self.undecided.append({'obligation': ob['name'], 'function': rep['function'], 'reason': ob.get('reason', '')})
 
     def input_search(self, contract):
+        self._search_stats = None
         try:
             from .sampled import sampled_check
             from .interp import Engine, Config, Ctx, Interp
             from .source import Repo
             ip = Interp(Ctx(Engine(Repo(), Config()), []))
-            _evals, _distinct, fails = sampled_check(contract, ip, n=120, seed=int(os.environ.get('VERIF_SEED', '0') or 0))
+            evals, _distinct, fails = sampled_check(contract, ip, n=120, seed=int(os.environ.get('VERIF_SEED', '0') or 0))
+            self._search_stats = {'evaluated': evals, 'undetermined': getattr(sampled_check, 'last_undetermined', None),
+                                  'failing': len(fails)}
         except Exception:
             return None
         return fails[0] if fails else None
